@@ -309,6 +309,7 @@ def finish(a, engine, prop, tier, seed, results, harness_errors, t0, nh, W, runs
     agg = dict(evaluations=0, faults={}, probes={}, steps=0, nontrivial_runs=0)
     measures, samples, by_sig, sig_counts = set(), [], {}, {}
     incomplete = 0
+    regression = [r['regression'] for r in results if r.get('regression')]
     for r in results:
         agg['evaluations'] += r['evaluations']
         agg['steps'] += r['steps']
@@ -389,6 +390,7 @@ def finish(a, engine, prop, tier, seed, results, harness_errors, t0, nh, W, runs
             'probes': agg['probes'],
             'real_components': comp['real'], 'stub_components': comp['stub'],
             'known_findings_matched': {kid: n for kid, (k, n) in known_hit.items()},
+            'regression_seeds_replayed': sorted(regression),
             'violation_signatures': new_viol,
             'harness_errors': len(harness_errors),
             'repo_state': core.repo_state(),
